@@ -29,6 +29,11 @@ MULTI = ["CC(=O)N.[OH-].O>>CC(=O)O", "CC(=O)NC.[OH-].O>>CC(=O)O", "CC(=O)N.O.Cl>
          "CC(=O)N.[OH-]>>CC(=O)[O-]", "CS(=O)(=O)N.[OH-].O>>CS(=O)(=O)O", "CC(=O)SC.[OH-].O>>CC(=O)O", "NC(=O)N.O.O>>O=C=O",
          "CC(=O)N.O.[Na+].[OH-]>>CC(=O)[O-].[Na+]", "ClC(=O)N.O.O>>O=C=O"]
 
+# given molecules that contain a halogen-halogen bond (the bond the rule stage must never ADD), as spectators next to
+# an ordinary rule-based completion: how they are written must not matter
+HALOBOND = ["CC(=O)Cl.O.{x}>>CC(=O)O.{x}".format(x=x) for x in ("c1ccccc1I(Cl)Cl", "ICl", "IBr", "BrCl", "ClCl")] + \
+           ["CCO.c1ccccc1I(Cl)Cl>>CCCl.O.c1ccccc1I"]
+
 _VOCAB = None
 
 
@@ -221,7 +226,7 @@ def run(tier, seed):
     # marker family: molecules that spell like the pipeline's placeholders on the product side
     # next to a reactant-side or product-side completion
     rxns = pf.dedupe(rxns + [l + ">>" + a + "." + b for l in MARKER_LEFT for a in MARKER_RIGHT for b in MARKER_RIGHT])
-    rxns = pf.dedupe(rxns + MULTI)
+    rxns = pf.dedupe(rxns + MULTI + HALOBOND)
     perm = 4 if tier == "thorough" else 3
     r = pmap("checks.c14:job", [(x, perm) for x in rxns], chunk=8, seed=seed, timeout=7200)
     n_cd = n_var = 0
